@@ -55,6 +55,12 @@ func placeBases(in *HistInput, mode string) bool {
 // checkResume: base run from the first file, labels and chain, then every
 // delivered transaction as a resume point.
 func checkResume(in HistInput) string {
+	if in.RejectAt > 0 {
+		// the Streamer's own resume point: a rejected delivery, then a second
+		// Stream call on the same object (labels and contents of a fresh stream)
+		w, _, _ := checkGrouping(in)
+		return w
+	}
 	h := in.build()
 	start := ref.Position{File: h.Files[0].Name, Pos: 4}
 	served, err := h.Serve(start.File, start.Pos)
@@ -187,6 +193,15 @@ func runC03(r *chk.Run) {
 				count++
 				if count%997 == 0 {
 					r.Sample(mode, map[string]interface{}{"units": units, "cfg": CfgName(cfg), "offset_mode": mode, "bases": in.Bases, "names": in.Names})
+				}
+				if len(seq) <= 3 && len(seq) > 0 && ci == 0 {
+					for k := 1; k <= len(seq); k++ {
+						in2 := in
+						in2.RejectAt = k
+						if !hr.add(in2) {
+							return
+						}
+					}
 				}
 			}
 		}
